@@ -53,7 +53,7 @@ CHECKS.update({
  "C09": dict(
    text="Theorem: choosing the first matching usage of the SORTED expanded usages is independent of the order the hash set yields them (insertion sort is canonical on permutations: total antisymmetric transitive byte order, proved for Coq strings), with the pre-fix first-match-in-iteration-order refuted by witness (K11, fixed); the same for the whole tail mirror (acceptance and variables). The order the code tries the usages in (hook) must equal Coq's sort of the same strings. "
         "OptLookup.v: the repaired Options::find is the minimum of the matching descriptions in the derived order of OptionArg, which is proved to be a total order; the lookup is invariant under every permutation of the description set (K49, fixed: the first match was not) and equals the Tail mirror's lookup when no name is shared. "
-        "Tie: every accepted pair (and a sample of rejected ones) is re-parsed 8/32 times in one process and in a different process; any two differing outcomes are a violation; 1350 document/argv pairs whose option descriptions SHARE names are re-parsed as well, and the description the code answers with must be the model's.",
+        "Tie: every accepted pair (and a sample of rejected ones) is re-parsed 8/16 times in one process and in a different process; any two differing outcomes are a violation; 1350 document/argv pairs whose option descriptions SHARE names are re-parsed as well, and the description the code answers with must be the model's.",
    note=NOTE_DOC + "That std's RandomState really produces different iteration orders is runtime behaviour (observed before the fix: 23/17 split in 40 calls). The model `choose` is not executed against the code (the matcher it abstracts over is the code's own).",
    technique="Coq proof of order-independence of sorted choice + repeated-parse determinism sweep", design="5/C09"),
  "C10": dict(
